@@ -11,19 +11,33 @@ def make_base(ctx, k):
     for _ in range(nb - 1):
         t, _m = gen.mutate_tree(ctx.rng, trees[-1])
         trees.append(t)
+    combo = None
+    if k % 3 == 2:
+        # small files sharing ONE combined block; the next version drops (or rewrites) the file at the block's start and keeps
+        # the others unchanged, so it refers to that block only at offsets above zero
+        def cf(d, m):
+            return {"k": "f", "data": d.hex(), "mode": 0o644, "mtime": 10**18 + m}
+        base_files = {"c1x": cf(b"xxxxx", 1), "c2y": cf(b"yyyyyyy", 2), "c3z": cf(b"zzz", 3)}
+        for j, t in enumerate(trees):
+            t["c"] = {nm: dict(nd) for nm, nd in base_files.items() if not (j >= 1 and nm == "c1x")}     # nothing else: c1x starts the block
+            if j >= 1 and ctx.rng.random() < 0.5:
+                t["c"]["c1x"] = cf(b"XXXXXXXXX", 50 + j)
+            if j >= 2:
+                t["c"]["c4w"] = cf(b"w%d" % j, 60 + j)
+        combo = {"meph": 100000, "mbs": 64, "sfc": 1 << 20}
     steps = [{"op": "init"}]
     # every third base: a version in the middle is the file-less leftover of a backup killed before it wrote its head
     # (a listed version directory that cannot be opened): deleting it must work like deleting any other
     headless = [ctx.rng.randrange(0, nb - 1)] if (k % 3 == 1 and nb >= 2) else []
     for j, t in enumerate(trees):
-        st = {"op": "backup", "opts": scen.small_opts(ctx.rng)}
+        st = {"op": "backup", "opts": combo or scen.small_opts(ctx.rng)}
         if j in headless:
             st["plan"] = {"crash": ctx.rng.choice([5, 6])}
         steps += [{"op": "mktree", "path": "src", "tree": t}, {"op": "walk"}, st]
     steps.append({"op": "arch"})
     for b in range(nb):
         steps.append({"op": "restore", "band": b, "dest": f"ref{b}"})
-    return {"id": f"D{k}", "nb": nb, "trees": trees, "steps": steps, "headless": headless}
+    return {"id": f"D{k}", "nb": nb, "trees": trees, "steps": steps, "headless": headless, "combo": combo is not None}
 
 
 def after_steps(nb):
@@ -110,6 +124,8 @@ def run(ctx):
             subsets = [[]] + ctx.rng.sample(subsets[1:], min(3, len(subsets) - 1))
             if nb >= 2 and not any(len(x) >= 2 for x in subsets):
                 subsets.append(list(range(nb))[-2:])
+            if b.get("combo") and [0] not in subsets:
+                subsets.append([0])
         # the versions may be named in ANY order (and once more than needed): descending and shuffled lists too
         ordered = []
         for x in subsets:
